@@ -377,6 +377,7 @@ const W_STATE: &[(K, u64)] = &[
 ];
 
 const W_SCOPES: &[(K, u64)] = &[
+    (K::LocalBurst, 1),
     (K::UserPanic, 3),
     (K::EventNew, 3),
     (K::AddEventFrom, 4),
@@ -661,6 +662,7 @@ pub fn profile(prop: &str) -> Profile {
             ops: (20, 90),
             cancelable_pct: 20,
             weights: W_SCOPES,
+            burst_pct: 3,
             max_depth: 12,
             unsampled_pct: 15,
             live_tail: false,
@@ -1327,8 +1329,9 @@ impl<'a> Gen<'a> {
                 let mut body = self.gen_body();
                 self.in_poll = false;
                 self.cur_task = None;
-                if wrap == Wrap::InSpanCatch && !ready && self.rng.pct(40) {
-                    // the body panics; the combinator between the two adapters contains it
+                if !ready && self.rng.pct(if wrap == Wrap::InSpanCatch { 40 } else { 8 }) {
+                    // the body panics: the combinator between the two adapters contains it, or
+                    // (other tasks) the caller of the poll does
                     body.push(Op::BodyPanic);
                 }
                 self.push_inner(t, Op::Poll { task, kind, ready }, body)
@@ -1401,7 +1404,8 @@ impl<'a> Gen<'a> {
                     return false;
                 }
                 let slot = *self.rng.pick(&live);
-                self.push(t, Op::UnwindScope { slot })
+                let shape = self.rng.below(3) as u8;
+                self.push(t, Op::UnwindScope { slot, shape })
             }
             K::Twin => {
                 if depth != 0 {
@@ -1463,7 +1467,7 @@ impl<'a> Gen<'a> {
                 let n = 10240 - 3 + self.rng.below(8) as u32;
                 let ok = self.push(t, Op::LocalBurst { n });
                 // ... and what the thread does right after the limit was hit
-                for k in [K::CtxCurrent, K::ChildLocal, K::LocalEnter, K::LocalAddEvent, K::CtxCurrent, K::Pop] {
+                for k in [K::CtxCurrent, K::ChildLocal, K::LocalEnter, K::LocalAddEvent, K::CtxCurrent, K::Pop, K::CtxCurrent, K::ChildLocal, K::LocalAddEvent] {
                     if self.rng.pct(55) {
                         self.try_kind(t, k);
                     }
